@@ -91,6 +91,16 @@ def gen_build_files():
                 out = os.path.join(rw, "controller_" + f)
                 _write_if_changed(out, new)
                 overlay[os.path.join(cdir, f)] = out
+    # internal/sensors: "sync" -> vsched (Mutex.Lock is a scheduling point; no-op unless a harness starts a scheduler)
+    sdir = os.path.join(REPO, "internal", "sensors")
+    for f in sorted(os.listdir(sdir)):
+        if f.endswith(".go") and not f.endswith("_test.go"):
+            src = open(os.path.join(sdir, f)).read()
+            new = _rewrite_import(src, "sync", MODULE + "/" + SHIM + "/vsched", "sync")
+            if new is not None:
+                out = os.path.join(rw, "sensors_" + f)
+                _write_if_changed(out, new)
+                overlay[os.path.join(sdir, f)] = out
     bfile = os.path.join(REPO, "internal", "backend.go")
     if os.path.exists(bfile):
         src = open(bfile).read()
